@@ -62,6 +62,8 @@ end
 
 instance : Inhabited TVal := ⟨.bool false⟩
 
+deriving instance DecidableEq for TVal, TVals, TFields, TPairs
+
 def TVal.ttype : TVal → TType
   | .bool _ => .bool | .i8 _ => .i8 | .i16 _ => .i16 | .i32 _ => .i32 | .i64 _ => .i64
   | .dbl _ => .double | .bin _ => .binary | .uuid _ => .uuid | .struct _ => .struct
